@@ -183,7 +183,55 @@ def gen_case(rng, max_ops=26, kind="mixed"):
         return gen_case_random(rng, max_ops, kind)
     if r < 0.34:
         return gen_close_case(rng)
+    if r < 0.37:
+        return gen_close_balance_case(rng)
     return gen_case_scenario(rng, max_ops)
+
+
+def gen_close_balance_case(rng):
+    """lending_account_close_balance that SUCCEEDS after time has passed on a bank that earns interest: a lender, a borrower
+    who keeps the bank's share values moving, and a third account whose position is emptied to dust by an exact partial
+    withdrawal (or an exact partial repayment) and then closed after a clock advance"""
+    nb, na = 2, 3
+    now = 1_700_000_000 + rng.randrange(0, 10 ** 7)
+    pf = [rng.randrange(2), G.fx(Fraction(rng.randrange(0, 200), 10000)), G.fx(Fraction(rng.randrange(0, 500), 10000))]
+    banks = []
+    B = G.BANK_TOKS
+    for k in range(nb):
+        t, _i = gen_hbank(rng, now, "plain")
+        t[8] = t[9] = U64_MAX
+        t[12] = rng.choice([0, 16])
+        t[17] = 1
+        t[10] = 0
+        t[B + 0] = t[B + 1] = ONE
+        t[B + 4] = 0
+        t[B + 6] = ONE
+        t[11] = 6
+        banks.append(t)
+    big = rng.choice([10 ** 9, 10 ** 12])
+    amt = rng.choice([1, 1000, 10 ** 6, 10 ** 6 + 1])
+    ops = [[1, 0, 0, big, 0], [1, 1, 1, 10 ** 15, 0], [3, 1, 0, big // rng.choice([2, 3, 10])]]
+    side = rng.random()
+    if side < 0.6:
+        ops += [[1, 2, 0, amt, 0], [2, 2, 0, amt, 0]]
+    else:
+        ops += [[1, 2, 1, 10 ** 14, 0], [3, 2, 0, amt], [4, 2, 0, amt, 0]]
+    for _ in range(rng.choice([1, 1, 2])):
+        now += rng.choice([1, 60, 3600, 86400, 86400 * 30])
+        ops.append([0, now])
+        if rng.random() < 0.3:
+            ops.append([10, rng.randrange(nb)])
+    ops.append([7, 2, 0])
+    if rng.random() < 0.5:
+        now += rng.choice([1, 3600])
+        ops += [[0, now], [1, 2, 0, amt, 0], [2, 2, 0, 0, 1]]
+    toks = [nb, na] + pf + [banks[0][7]]
+    for bk in banks:
+        toks += bk
+    toks.append(len(ops))
+    for o in ops:
+        toks += clamp_op(o)
+    return " ".join(map(str, toks))
 
 
 def gen_close_case(rng):
@@ -374,32 +422,18 @@ def gen_case_scenario(rng, max_ops=26):
             # token-less write-off (sanctioned exception of C01): flag the debt bank, make the borrower's authority the
             # group's risk admin (or not), then repay everything / a part
             ops.append([31, d, banks[d][12] | 32])
-            if rng.random() < 0.8:
+            recv = rng.random() < 0.25
+            if recv:
+                ops.append([33, a, rng.choice([16, 16, 16 | 32])])      # in receivership, signer is NOT the risk admin
+            elif rng.random() < 0.8:
                 ops.append([30, a])
             ops.append([4, a, d, rng.choice([1, bamt]), 1 if rng.random() < 0.8 else 0])
+            if recv:
+                ops.append([33, a, 0])
             if rng.random() < 0.5:
                 ops.append([30, 255])
             if rng.random() < 0.5:
                 ops.append([2, 0, d, rng.choice([1, big // 2, big]), rng.randrange(2)])
-        elif r < 0.993:
-            # a sunset bank (token-less repayments allowed) and an account in receivership whose debt is repaid in full by
-            # its authority, who is NOT the risk admin: the tokens must still be paid
-            ops.append([31, d, banks[d][12] | 32])
-            ops.append([33, a, rng.choice([16, 16, 16 | 32])])
-            ops.append([4, a, d, rng.choice([1, bamt]), 1 if rng.random() < 0.85 else 0])
-            ops.append([33, a, 0])
-        elif r < 0.996:
-            # position counters versus totals: a second depositor empties its position with an exact partial withdrawal and
-            # then withdraws "all" of the dust; the admin then asks to close the (close-enabled) bank
-            bx = rng.randrange(nb)
-            ops.append([31, bx, banks[bx][12] | 16])
-            aa = rng.randrange(1, na) if na > 1 else 0
-            amt = rng.choice([1, 3, 1000, 10 ** 6 + 1])
-            ops.append([1, 0, bx, rng.choice([10 ** 6, 10 ** 9]), 0])
-            ops.append([1, aa, bx, amt, 0])
-            ops.append([2, aa, bx, amt, 0])
-            ops.append([2, aa, bx, 0, 1])
-            ops.append([36, bx])
         else:
             # open a position, empty it with an exact partial withdrawal, let time pass, close the balance
             bx = rng.randrange(nb)
